@@ -237,25 +237,41 @@ End Gen.
 Definition snode : Type := (bytes * bytes)%type.
 Definition gen_hash (modname name : bytes) (collision_id : N) : N :=
   lyb_generate_hash Consts.LYB_HASH_MASK Consts.LYB_HASH_COLLISION_ID modname name collision_id.
-(* lyb_get_hash(): the cache node->hash[] holds lyb_generate_hash(node, i) for i < LYS_NODE_HASH_COUNT *)
-Definition get_hash (n : snode) (collision_id : N) : N := gen_hash (fst n) (snd n) collision_id.
 
-Definition hash_siblings (l : list snode) : option (list (hrec snode)) :=
-  lyb_hash_siblings Consts.LYB_HASH_BITS snode get_hash l.
-Definition print_schema_hash (ht : list (hrec snode)) (idx : nat) (n : snode) : option bytes :=
-  lyb_print_schema_hash Consts.LYB_HASH_BITS Consts.LYB_HASH_COLLISION_ID snode get_hash ht idx n.
+(* a schema node with its cache node->hash[] as filled by lyb_cache_node_hash_cb(). The C array has
+   LYS_NODE_HASH_COUNT entries and lyb_get_hash() generates the hash for larger collision ids; the
+   model caches all LYB_HASH_BITS values (same values, see LybHashP.get_hash_gen). *)
+Definition cnode : Type := (snode * list N)%type.
+Definition cache_node (n : snode) : cnode :=
+  (n, map (fun i => gen_hash (fst n) (snd n) (N.of_nat i)) (seq 0 (N.to_nat Consts.LYB_HASH_BITS))).
+(* lyb_get_hash() *)
+Definition get_hash (c : cnode) (collision_id : N) : N :=
+  match nth_error (snd c) (N.to_nat collision_id) with
+  | Some v => v
+  | None => gen_hash (fst (fst c)) (snd (fst c)) collision_id
+  end.
+
+Definition hash_siblings (l : list snode) : option (list (hrec cnode)) :=
+  lyb_hash_siblings Consts.LYB_HASH_BITS cnode get_hash (map cache_node l).
+Definition print_schema_hash (ht : list (hrec cnode)) (idx : nat) (n : snode) : option bytes :=
+  lyb_print_schema_hash Consts.LYB_HASH_BITS Consts.LYB_HASH_COLLISION_ID cnode get_hash ht idx (cache_node n).
 Definition parse_schema_hash (l : list snode) (inp : bytes) : res (option nat * bytes) :=
-  lyb_parse_schema_hash Consts.LYB_HASH_BITS Consts.LYB_HASH_MASK Consts.LYB_HASH_COLLISION_ID snode get_hash l inp.
+  lyb_parse_schema_hash Consts.LYB_HASH_BITS Consts.LYB_HASH_MASK Consts.LYB_HASH_COLLISION_ID cnode get_hash
+                        (map cache_node l) inp.
 
 (* what the lybsib driver prints: for every sibling the printed hash bytes and the index the parser finds *)
 Definition sib_roundtrip (l : list snode) : option (list (option (bytes * res (option nat * bytes)))) :=
   match hash_siblings l with
   | None => None
   | Some ht =>
-      Some (map (fun p : nat * snode =>
-                   match print_schema_hash ht (fst p) (snd p) with
+      let cl := map cache_node l in
+      Some (map (fun p : nat * cnode =>
+                   match lyb_print_schema_hash Consts.LYB_HASH_BITS Consts.LYB_HASH_COLLISION_ID cnode get_hash
+                                               ht (fst p) (snd p) with
                    | None => None
-                   | Some bs => Some (bs, parse_schema_hash l bs)
+                   | Some bs =>
+                       Some (bs, lyb_parse_schema_hash Consts.LYB_HASH_BITS Consts.LYB_HASH_MASK
+                                   Consts.LYB_HASH_COLLISION_ID cnode get_hash cl bs)
                    end)
-                (combine (seq 0 (length l)) l))
+                (combine (seq 0 (length cl)) cl))
   end.
